@@ -164,7 +164,8 @@ impl<T: MomTropFloat> SquareMatrix<T> {
         (0..self.dim).fold(const_builder.one(), |acc, i| acc * &q[(i, i)]);
         let determinant = det_q.ref_mul(&det_q);
 
-        if det_q == const_builder.zero() {
+        // det_q * det_q can underflow to zero although det_q != 0
+        if det_q == const_builder.zero() || determinant == const_builder.zero() {
             return Err(MatrixError::ZeroDet);
         }
 
